@@ -228,8 +228,8 @@ macro_rules! c15_scalar {
             assert!(e_m == e_v, "== differs between serde_json::Value and another faithful Queryable");
             assert!(l_m == l_v, "< differs between serde_json::Value and another faithful Queryable");
             assert!(g_m == g_v, "> differs between serde_json::Value and another faithful Queryable");
-            kani::cover!(e_v, "equal");
-            kani::cover!(l_v, "less");
+            kani::cover!(!e_v, "operands not equal");
+            kani::cover!(e_m == e_v && l_m == l_v, "end reached");
         });
     };
 }
